@@ -321,6 +321,28 @@ def _is_midpoint(e: ast.expr, a: str, b: str) -> bool:
     return False
 
 
+def _is_trial_point(e: ast.expr, a: str, b: str) -> bool:
+    """(a + b) * c, (a + b) / c, c * (a + b), a + (b - a) * c, a + (b - a) / c with a numeric constant c:
+    an affine combination of the two bracket ends (the midpoint when c is one half)."""
+    def is_sum(x):
+        return isinstance(x, ast.BinOp) and isinstance(x.op, ast.Add) and {norm_text(x.left), norm_text(x.right)} == {a, b}
+
+    def is_diff(x):
+        return isinstance(x, ast.BinOp) and isinstance(x.op, ast.Sub) and {norm_text(x.left), norm_text(x.right)} == {a, b}
+
+    def num(x):
+        return isinstance(const_value(x), (int, float))
+
+    if isinstance(e, ast.BinOp):
+        if isinstance(e.op, (ast.Mult, ast.Div)) and ((is_sum(e.left) and num(e.right)) or (isinstance(e.op, ast.Mult) and is_sum(e.right) and num(e.left))):
+            return True
+        if isinstance(e.op, ast.Add):
+            for base, rest in ((e.left, e.right), (e.right, e.left)):
+                if norm_text(base) in (a, b) and isinstance(rest, ast.BinOp) and isinstance(rest.op, (ast.Mult, ast.Div)) and ((is_diff(rest.left) and num(rest.right)) or (isinstance(rest.op, ast.Mult) and is_diff(rest.right) and num(rest.left))):
+                    return True
+    return False
+
+
 def rule_d(ctx: Context, R: Reporter, fin: FuncInfo, run: FuncInfo):
     n = 0
     for f in ctx.prog.functions.values():
@@ -333,10 +355,10 @@ def rule_d(ctx: Context, R: Reporter, fin: FuncInfo, run: FuncInfo):
         for nd in cfg.stmt_nodes():
             if nd.kind == "stmt" and isinstance(nd.stmt, ast.Assign) and isinstance(nd.stmt.targets[0], ast.Name) and isinstance(nd.stmt.value, ast.BinOp) and nd.loops:
                 names = sorted({x.id for x in ast.walk(nd.stmt.value) if isinstance(x, ast.Name)})
-                if len(names) == 2:
+                if len(names) == 2 and _is_trial_point(nd.stmt.value, names[0], names[1]):
                     mids.append((nd, names))
         if not mids:
-            raise AnalysisError(f"C05.d: no midpoint assignment found in {f.short}")
+            raise AnalysisError(f"C05.d: no trial-point assignment (affine combination of the two bracket ends) found in {f.short}")
         for (nd, (a, b)) in mids:
             n += 1
             R.check("C05.d", f"{f.short}: the trial beta is the midpoint of the current bracket", _is_midpoint(nd.stmt.value, a, b), f, nd.stmt,
